@@ -426,6 +426,11 @@ class PropertiesDataBounds(PropertiesData):
 
             data.apply_masking(**kwargs)
 
+        # Apply masking to the interior ring variable, if any
+        interior_ring = c.get_interior_ring(None)
+        if interior_ring is not None:
+            interior_ring.apply_masking(inplace=True)
+
         return c
 
     def creation_commands(
